@@ -74,6 +74,8 @@ def run(chk, tier):
     chk.rule("R-EXTENT", "sibling agreement on the extent of bulk copies of one array field")
     ne = extent.run(chk, P, list(P.units), fields=set(FIELDS))
     chk.floor("R-EXTENT", "bulk operations on distances/memattr arrays", ne, 11)
+    nl = extent.counted_loops(chk, P, list(P.units))
+    chk.floor("R-EXTENT", "counted loops over fixed-size array fields", nl, 4)
     chk.decided += ['no local allocation of the duplication code is dropped on a path to a return',
                     'a copy records for each heap array the capacity it was actually allocated with',
                     "the duplication functions' failure paths release each allocation once (no use after release)",
